@@ -553,6 +553,7 @@ STARTS = ('fresh', 'play', 'disconnected', 'refused')
 # has been issued and its status query is in flight
 NEGOTIATING = 'negotiating'
 ENCRYPTING = 'encrypting'      # connect() issued, server will ask for encryption
+STATUSING = 'statusing'        # status() issued, reply not yet processed
 PROGS = {
     'connect||connect': ([('connect',)], [('connect',)]),
     'connect||disc': ([('connect',)], [('disc',)]),
@@ -633,6 +634,8 @@ def sched_body(W, start, prog):
             pass
     elif start in (NEGOTIATING, ENCRYPTING):
         conn.connect()          # first packets sent, reply not yet processed
+    elif start == STATUSING:
+        conn.status(handle_status=lambda s: None, handle_ping=lambda ms: None)
     viol = []
 
     def do(tid, i, op):
@@ -830,6 +833,10 @@ QUICK_B[(NEGOTIATING, 'disc')] = 1
 QUICK_B[(NEGOTIATING, 'disc_imm')] = 1
 QUICK_B[(ENCRYPTING, 'disc')] = 1
 QUICK_B[(ENCRYPTING, 'disc_imm')] = 1
+PROGS['disc,connect'] = ([('disc',), ('connect',)], [])
+QUICK_B[(STATUSING, 'disc,connect')] = 1
+QUICK_B[(STATUSING, 'disc')] = 1
+QUICK_B[(NEGOTIATING, 'disc,connect')] = 1
 QUICK_B.update({('play', 'connect||disc'): 2, ('fresh', 'connect||connect'): 2})
 
 
